@@ -68,6 +68,16 @@ CHECKS = {
             "Frame clause only: expansion functions write nothing but cellWidth_ and only under the movable test on the same index; computeCellExpansion is pure, gives each cell one factor, 1 for fixed cells and a running maximum from 1 otherwise.",
             "Trusted: clang 14 front end. Declined: all density / rounding arithmetic; completeness of a non-trivial region scan.",
             "DESIGN.md 2/C18"),
+    "C01": ("must-pass-through / dominance analysis of the legalization skeleton, witness-variable provenance of commits, who-may-write, row provenance, derived-state (cache) invalidation analysis",
+            "Decides the 'fails loudly / nothing partial / only free, admitted space is consumed' skeleton for every circuit: completeness check last, export after a successful run, commits only of admitted (cell,row) candidates with a space test, "
+            "rows taken from the obstruction-free computation, Tetris space bookkeeping under a two-sided overlap test, index bookkeeping in step, no stale cached free space.",
+            "Trusted: clang 14 front end. Declined: geometric legality of the Abacus/Tetris arithmetic; 'never fails when trivial'.",
+            "DESIGN.md 2/C01"),
+    "C02": ("who-may-write, edge-dominance of mutations by feasibility predicates, witness provenance of moves, geometry-frame typing of the model builders, obstacle-list filter analysis",
+            "Decides that the row lists are only mutated through validated primitives, only for candidates evaluated feasible (including row polarity), that the model is built from placed geometry and never treats fixed cells as extra obstacles, "
+            "and that exposed states are exported before the user callback.",
+            "Trusted: clang 14 front end. Declined: LP semantics of the shift pass; arithmetic of the centring formulas over all move sequences.",
+            "DESIGN.md 2/C02"),
 }
 
 NOT_APPLICABLE = {
